@@ -224,7 +224,7 @@ def cmp_cases(rng, bits):
     return [(x % m, y % m) for x, y in out]
 
 
-def gen(rng, tier):
+def _gen(rng, tier):
     nh = 2500 if tier == 'quick' else 60000
     draws = 1000 if tier == 'quick' else 10000
     for bits in WIDTHS:
@@ -253,6 +253,19 @@ def gen(rng, tier):
     weights = WIDTHS + [w for w in WIDTHS if w % 64 != 0] * 2
     for _ in range(nh):
         yield history(rng, rng.choice(weights))
+
+
+HIST_OPS = {}
+
+
+def gen(rng, tier):
+    HIST_OPS.clear()
+    for c in _gen(rng, tier):
+        if c.startswith('hist '):
+            for t in c.split(' ')[3:]:
+                k = t.split(':')[0]
+                HIST_OPS[k] = HIST_OPS.get(k, 0) + 1
+        yield c
 
 
 def shrink_candidates(c):
@@ -386,8 +399,50 @@ def extract_graph(repo):
     return edges, missing
 
 
+def replay_probe_if_requested(repo):
+    """`./check C04 --replay f` with a compile-probe replay: re-run exactly that probe and decide (the line protocol
+    cannot express a compile probe, so this is handled here, before anything else runs)."""
+    import json
+    import sys
+    if '--replay' not in sys.argv:
+        return
+    try:
+        rp = json.load(open(sys.argv[sys.argv.index('--replay') + 1]))
+    except Exception:
+        return
+    case = rp.get('case', '')
+    if not case.startswith('probe '):
+        return
+    toks = case.split(' ')
+    B, L, name = int(toks[1]), int(toks[2]), toks[3]
+    expr = dict(probes.ITEMS).get(name)
+    if expr is None:
+        print('MACHINERY-ERROR property=C04: unknown probe item %r' % name, flush=True)
+        sys.exit(2)
+    res, err = probes.run_probes(repo, [(name, expr, B, L)], tag='replay')
+    if res is None:
+        print('MACHINERY-ERROR property=C04: %s' % err, flush=True)
+        sys.exit(2)
+    outcome, detail, src = res[(name, B, L)]
+    print('probe %d %d %s -> %s %s' % (B, L, name, outcome, detail), flush=True)
+    if outcome == 'value' and (B, L) in probes.ILL:
+        import vlib
+        tag = 'c04_bytemuck_zeroed_illformed' if name == 'bytemuck_zeroed' else 'c04_illformed_value_' + name
+        f = vlib.Findings().match('C04', tag)
+        if f:
+            print('KNOWN-FINDING: property=C04 %s [%s]' % (f['what'], tag), flush=True)
+            sys.exit(0)
+    if outcome in ('value', 'timeout') and (B, L) in probes.ILL:
+        print('VIOLATION property=C04 replay=%s' % sys.argv[sys.argv.index('--replay') + 1], flush=True)
+        print('  kind=impl-violation case=%r impl=%r spec=%r' % (case[:200], outcome + ' ' + detail, 'compile-error|panic'), flush=True)
+        sys.exit(1)
+    print('C04 replay: held (%s)' % outcome, flush=True)
+    sys.exit(0)
+
+
 def translate(repo, lean):
     """emit Ruint/Gen/GuardGraph.lean: the mentions graph and the list of public producers"""
+    replay_probe_if_requested(repo)
     edges, missing = extract_graph(repo)
     path = os.path.join(lean, 'Ruint', 'Gen', 'GuardGraph.lean')
     os.makedirs(os.path.dirname(path), exist_ok=True)
@@ -452,6 +507,7 @@ def extra_checks(tier, rng, findings):
             # controls on well-formed types must yield a value, otherwise the probe itself is broken
             if outcome not in ('value',):
                 cov.setdefault('probe_control_failures', []).append(case + ' -> ' + outcome + ' ' + detail)
+    cov['history_operation_counts'] = dict(sorted(HIST_OPS.items()))
     cov['compile_probes'] = {'count': len(res), 'pairs_illformed': sorted(ill), 'outcomes': table,
                              'summary': {o: sum(1 for v in res.values() if v[0] == o) for o in ('compile-error', 'panic', 'none', 'value', 'timeout')}}
     if cov.get('probe_control_failures'):
